@@ -8,14 +8,17 @@
                                 the redirect branch and sendRedirect's raise)
      plaintext_client_guard    (IdentityGen: handlePLAINTEXTClient statement by statement)
      ev1_identity, attach_key, phase constants (IdentityGen, as in lib/Identity.v)
-   Hand-written here and compared with the real code by the correspondence: parseLines (lib/NegBytes.v), the order
-   certificate lookup -> parseLines -> `error` test -> evaluateHello inside handleENCRYPTED, handleDECIDING.
-   Parameters (the theorems hold for EVERY choice, so nothing about them is assumed):
-     decode      six.ensure_str on bytes (UTF-8 decoding; None = UnicodeDecodeError)
-     pre_ok      every check of evaluateHello / evaluateNegotiationVersion1 that runs BEFORE the identity checks
+   Hand-written here and compared with the real code by the correspondence: the order certificate lookup -> parseLines ->
+   `error` test -> evaluateHello inside handleENCRYPTED, handleDECIDING, switchToBanana emptying the buffer.
+   Parameters (the theorems hold for EVERY choice, so nothing about them is assumed; lib/IdentityBytesReal.v instantiates
+   them with the TRANSLATED parseLines of C13 (strict UTF-8) and the wire-level checks of lib/NegWire.v):
+     D, parse    the parsed header block and Negotiation.parseLines (Exc = it raised)
+     has_error   'error' in block;   claimed_of  block.get('my-tub-id')
+     decode      six.ensure_str on bytes in the plaintext handlers (None = UnicodeDecodeError)
+     pre_chk     every check of evaluateHello / evaluateNegotiationVersion1 that runs BEFORE the identity checks
                  (banana-negotiation-range present and parseable, version overlap, `assert not forced`)
-     post_ok     every check of the deciding end that runs AFTER them (existing-connection comparison, vocabulary range)
-     decision_ok acceptDecision (version, error key, vocabulary index and hash)
+     post_chk    every check of the deciding end that runs AFTER them (existing-connection comparison, vocabulary range)
+     decision_chk acceptDecision (version, error key, vocabulary index and hash)
      redirect    does the listener have a redirect for this id
    Definitions only; proofs in IdentityBytesProofs.v. *)
 From Coq Require Import ZArith List String Bool.
@@ -24,17 +27,11 @@ Require Import Verif.lib.PyLite Verif.gen.NegotiateGen Verif.lib.Negotiate Verif
                Verif.lib.NegSplit Verif.lib.Identity.
 Local Open Scope Z_scope.
 
-Notation dict := (list (list Z * list Z)) (only parsing).
-
-Definition k_error : list Z := [101; 114; 114; 111; 114].                                   (* "error" *)
-Definition k_my_tub_id : list Z := [109; 121; 45; 116; 117; 98; 45; 105; 100].              (* "my-tub-id" *)
-
 Record bstate := { b_phase : rphase;
                    b_their : option (list Z);     (* self.theirTubRef *)
                    b_attached : list (list Z);    (* keys given to Tub.brokerAttached, latest first *)
                    b_buf : list Z;                (* self.buffer *)
-                   b_fail : option string;        (* class of the exception last caught by dataReceived ("?" = raised
-                                                     inside a parameter) *)
+                   b_fail : option string;        (* class of the exception last caught by dataReceived *)
                    b_passed : list (list Z) }.    (* GHOST: the header blocks whose hello passed the identity checks *)
 
 Definition b_init : bstate :=
@@ -44,7 +41,11 @@ Section Bytes.
 Variable cert : Type.
 Variable tubid_of : cert -> list Z.
 Variable decode : list Z -> option (list Z).
-Variable pre_ok post_ok decision_ok : list (list Z * list Z) -> bool.
+Variable D : Type.
+Variable parse : list Z -> res D.
+Variable has_error : D -> bool.
+Variable claimed_of : D -> option (list Z).
+Variable pre_chk post_chk decision_chk : D -> res unit.
 Variable redirect : list Z -> bool.
 
 Definition rexc (at_raise : rphase) : rphase :=
@@ -66,37 +67,42 @@ Definition handle_encrypted (r : role) (my_id target : list Z) (p : presented ce
   match peer_from_transport cert p with
   | Exc w => (raised st (b_phase st) (b_their st) w, true)
   | Ok _ =>
-    match parse_lines decode hdr with
-    | None => (raised st (b_phase st) (b_their st) "ValueError", true)                 (* or UnicodeDecodeError *)
-    | Some d =>
-      if dict_has k_error d then (raised st (b_phase st) (b_their st) "RemoteNegotiationError", true)
-      else if negb (pre_ok d) then (raised st (RP phase_during_evaluate_hello) (b_their st) "?", true)
-      else
-        let claimed := dict_get k_my_tub_id d in
+    match parse hdr with
+    | Exc w => (raised st (b_phase st) (b_their st) w, true)
+    | Ok d =>
+      if has_error d then (raised st (b_phase st) (b_their st) "RemoteNegotiationError", true)
+      else match pre_chk d with
+      | Exc w => (raised st (RP phase_during_evaluate_hello) (b_their st) w, true)
+      | Ok _ =>
+        let claimed := claimed_of d in
         match handle_hello cert tubid_of r my_id target p claimed with
         | Reject w => (raised st (RP phase_during_evaluate_hello)
                               (their_after_rejected_evaluation cert tubid_of p claimed (b_their st)) w, true)
         | Accept t master =>
             if master
-            then if post_ok d then (switched r target st t hdr true, false)
-                 else (raised st (RP phase_during_evaluate_hello) (Some t) "?", true)
+            then match post_chk d with
+                 | Ok _ => (switched r target st t hdr true, false)
+                 | Exc w => (raised st (RP phase_during_evaluate_hello) (Some t) w, true)
+                 end
             else ({| b_phase := RP slave_phase_after_accept; b_their := Some t; b_attached := b_attached st;
                      b_buf := b_buf st; b_fail := b_fail st; b_passed := hdr :: b_passed st |}, false)
         end
+      end
     end
   end.
 
 (* handleDECIDING(header) *)
 Definition handle_deciding (r : role) (target : list Z) (st : bstate) (hdr : list Z) : bstate * bool :=
-  match parse_lines decode hdr with
-  | None => (raised st (b_phase st) (b_their st) "ValueError", true)
-  | Some d =>
-      if decision_ok d
-      then match b_their st with
-           | Some t => (switched r target st t hdr false, false)
-           | None => (raised st (b_phase st) (b_their st) "AttributeError", true)
-           end
-      else (raised st (b_phase st) (b_their st) "?", true)
+  match parse hdr with
+  | Exc w => (raised st (b_phase st) (b_their st) w, true)
+  | Ok d =>
+      match decision_chk d with
+      | Ok _ => match b_their st with
+                | Some t => (switched r target st t hdr false, false)
+                | None => (raised st (b_phase st) (b_their st) "AttributeError", true)
+                end
+      | Exc w => (raised st (b_phase st) (b_their st) w, true)
+      end
   end.
 
 Definition enter_encrypted (st : bstate) : bstate :=
@@ -140,7 +146,7 @@ Fixpoint bdrain (fuel : nat) (r : role) (my_id target : list Z) (p : presented c
     else if v =? 1 then st
     else
       match find_term buf with
-      | None => raised st (b_phase st) (b_their st) "?"        (* header_verdict = split without a terminator: not the case (proved) *)
+      | None => raised st (b_phase st) (b_their st) "no-terminator"      (* header_verdict says split where there is no terminator: defensive *)
       | Some e =>
           let hdr := firstn e buf in
           let st1 := with_bbuf st (skipn (e + 4) buf) in
